@@ -81,7 +81,7 @@ def check(tier):
     rep.coverage["hidden_state_closures"] = len(closures)
     rep.coverage["hidden_state_closure_samples"] = sorted(closures, key=lambda c: -c["hidden_states"])[:8]
     rep.coverage["hidden_states_total"] = hstates
-    rep.assumptions += ["order-2 histories: moves restricted to parameter x {2,1/2,-1,8} and coordinate x {2,1/2}; all pairs of moves for solutions with <=16 (quick) / <=64 (thorough) parameters, (parameter, coordinate) pairs otherwise", "hidden state = all bytes of the instance's heap block plus its registered vectors; zero-filled allocation and fork-from-pristine make it reproducible",
+    rep.assumptions += ["order-2 histories: moves restricted to parameter x {2,1/2,-1,8} and coordinate x {2,1/2}; all pairs of moves for solutions with <=32 (quick) / <=64 (thorough) parameters, (parameter, coordinate) pairs otherwise", "hidden state = all bytes of the instance's heap block plus its registered vectors; zero-filled allocation and fork-from-pristine make it reproducible",
                         "closure alphabet excludes set_param/set_vec (they define the configuration): default configuration and, for solutions with vectors, a configuration with vectors replaced but never evaluated"]
     return rep.finish()
 
